@@ -1347,7 +1347,8 @@ impl ContextualHuffmanEncoder {
         }
 
         // Read trees
-        let mut trees = Vec::with_capacity(tree_count);
+        // every serialised tree takes at least 4 bytes (its size field)
+        let mut trees = Vec::with_capacity(tree_count.min(data.len() / 4));
         for _ in 0..tree_count {
             if offset + 4 > data.len() {
                 return Err(ZiporaError::invalid_data("Truncated tree size"));
